@@ -67,7 +67,7 @@ pub fn run(ctx: Ctx) -> ! {
     for (era, form) in [("alonzo", "list"), ("babbage", "list"), ("conway", "list"), ("conway", "map")] {
         let e = s.get(&(era.to_string(), form.to_string())).copied().unwrap_or_default();
         if e[0] == 0 || e[1] == 0 || e[2] == 0 {
-            mc_core::report::machinery_failure(&format!("C37 vacuous for {era}/{form}: accepted Plutus cases {}, explored over-mem {}, over-steps {}", e[0], e[1], e[2]));
+            crate::fail(&format!("C37 vacuous for {era}/{form}: accepted Plutus cases {}, explored over-mem {}, over-steps {}", e[0], e[1], e[2]));
         }
     }
     found.flush(&ctx);
